@@ -186,11 +186,16 @@ def case_pair(ctx, spec):
     return {"nontrivial": bool(differs and traded), "labels": labs}
 
 
+# a lag is a wait, but users also pass anchored offsets: "0 business days" / "0 month ends" move a weekend or mid-month date FORWARD when
+# subtracted, so "now - lag" can lie after now - the window or row that is read must still end at now
+LAGS = st.sampled_from([{"days": 0}, {"days": 1}, {"days": 2}, {"days": 3}, {"days": 5}, {"bday": 0}, {"bday": 0}, {"bday": 1}, {"monthend": 0}])
+
+
 @st.composite
 def sparse_frame_spec(draw):
     """family aimed at data supplied on fewer dates than the price calendar (weekly scores on daily prices, dated targets, sparse
     signals) combined with lags: the algo must skip or look back, never forward"""
-    ds = draw(gen.dates(6, 18, kinds=("bday", "daily", "mixed")))
+    ds = draw(gen.dates(6, 18, kinds=("bday", "daily", "daily", "mixed")))
     n = len(ds)
     nt = draw(st.integers(2, 4))
     tickers = gen.TICKERS[:nt]
@@ -200,7 +205,7 @@ def sparse_frame_spec(draw):
     frames = {}
     if kind == "setstat":
         frames["f"] = {"kind": "frame", "dates": [ds[i] for i in keep], "cols": {t: [round(draw(st.floats(-1, 1, allow_nan=False)), 3) for _ in keep] for t in tickers}}
-        mid = [["SetStat", {"frame": "f", "by_name": draw(st.booleans()), "lag": {"days": draw(st.sampled_from([0, 1, 2, 3, 5]))}}], ["SelectN", {"n": draw(st.integers(1, nt)), "sort_descending": draw(st.booleans())}], ["WeighEqually", {}]]
+        mid = [["SetStat", {"frame": "f", "by_name": draw(st.booleans()), "lag": draw(LAGS)}], ["SelectN", {"n": draw(st.integers(1, nt)), "sort_descending": draw(st.booleans())}], ["WeighEqually", {}]]
     elif kind == "target":
         cols = {t: [] for t in tickers}
         for _ in keep:
@@ -237,7 +242,7 @@ def vol_spec(draw):
     pr = draw(gen.prices(n, tickers, n_clean=nt, vol=draw(st.sampled_from([0.01, 0.05]))))
     g = gen.max_gap_days(ds)
     lb = {"days": draw(st.integers(2 * g + 1, 6 * g + 10))}
-    lag = {"days": draw(st.sampled_from([0, 0, 1, 2, g]))}
+    lag = draw(st.one_of(st.sampled_from([0, 0, 1, 2, g]).map(lambda d: {"days": d}), LAGS))
     cm = draw(st.sampled_from(["standard", "standard", "ledoit-wolf"]))
     after = draw(st.integers(3, max(3, n // 2)))
     frames = {}
@@ -279,9 +284,42 @@ def vol_spec(draw):
 
 
 @st.composite
+def window_nested_spec(draw):
+    """family for open-ended windows in a strategy that holds securities next to a sub-strategy: SelectHasData / SelectMomentum count
+    or rank over the strategy's universe, which also carries the sub-strategy's price column; tickers list late, so whether a ticker
+    qualifies at t must not depend on rows after t"""
+    ds = draw(gen.dates(6, 16, kinds=("bday", "daily", "mixed")))
+    n = len(ds)
+    nt = draw(st.integers(2, 4))
+    tickers = gen.TICKERS[:nt]
+    pr = {}
+    for t in tickers:
+        late = draw(st.integers(0, n - 2)) if draw(st.booleans()) else 0
+        pr[t] = draw(gen.price_path(n, late=late))
+    if all(v[0] is None for v in pr.values()):
+        pr[tickers[0]] = draw(gen.price_path(n))
+    clean = [t for t in tickers if pr[t][0] is not None]
+    g = gen.max_gap_days(ds)
+    sel = draw(
+        st.sampled_from(
+            [
+                [["SelectHasData", {"lookback": {"days": draw(st.integers(g + 1, 4 * g + 10))}, "min_count": draw(st.integers(1, 4))}]],
+                [["SelectAll", {}], ["SelectMomentum", {"n": draw(st.integers(1, nt)), "lookback": {"days": draw(st.integers(g + 1, 3 * g + 8))}, "lag": draw(LAGS), "all_or_none": draw(st.booleans())}]],
+            ]
+        )
+    )
+    sub = {"name": "s1", "kind": "Strategy", "algos": [draw(gen.calendar_gate()), ["SelectThese", {"tickers": clean[:1]}], ["WeighEqually", {}], ["Rebalance", {}]], "children": clean[:1]}
+    declare = draw(st.booleans())
+    root = {"name": "root", "kind": "Strategy", "algos": [draw(gen.calendar_gate())] + sel + [["WeighEqually", {}], ["Rebalance", {}]], "children": [sub] + (list(tickers) if declare else [])}
+    return {"dates": ds, "prices": pr, "rng_seed": 0, "frames": {}, "additional": [], "integer_positions": draw(st.booleans()), "initial_capital": 1e6, "fee": {"kind": "none"}, "tree": root, "family": "window_nested"}
+
+
+@st.composite
 def pair_spec(draw):
-    k = draw(st.integers(0, 19))
-    if k < 4:
+    k = draw(st.integers(0, 20))
+    if k == 20:
+        spec = draw(window_nested_spec())
+    elif k < 4:
         spec = draw(sparse_frame_spec())
         spec["family"] = "sparse_frame"
     elif k < 7:
